@@ -3,6 +3,7 @@ import VProofs.C05
 import VProofs.Lemmas.FiltBounds
 import VProofs.Lemmas.FiltTagger
 import VProofs.Lemmas.FiltCommute
+import VProofs.Lemmas.PermRules
 /-!
 # C15 — Post-filters apply exactly their rule and nothing else
 
@@ -216,5 +217,22 @@ example : filterTagger [("ab".toList, [some "X".toList])]
     .ok { Sentence.default with text := "abc".toList, types := [2, 2, 2], bounds := [.N, .W],
                                 tags := [none, none, some "X".toList, none, some "Y".toList, none], nTags := 2 } := by
   decide
+
+end V
+
+/-! ## the rule map of `PatternMatchTagger` (a hashbrown `HashMap`) is read by keyed lookup only -/
+namespace V
+
+/-- listing the rules (distinct surfaces, as in a map) in another order does not change the filter -/
+theorem C15_tagger_rules_perm (rules₁ rules₂ : TagRules) (hp : rules₁.Perm rules₂) (hnd : (rules₁.map Prod.fst).Nodup)
+    (s : Sentence) : filterTagger rules₁ s = filterTagger rules₂ s :=
+  C15L.filterTagger_perm hp hnd s
+
+example :
+    let r₁ : TagRules := [(['a'], [some ['x']]), (['b'], [none, some ['y']]), (['c'], [])]
+    let r₂ : TagRules := [(['c'], []), (['a'], [some ['x']]), (['b'], [none, some ['y']])]
+    r₁.Perm r₂ ∧ (r₁.map Prod.fst).Nodup ∧ r₁ ≠ r₂ ∧ rulesGet r₁ ['b'] = some [none, some ['y']] ∧
+    rulesGet r₂ ['b'] = some [none, some ['y']] := by
+  refine ⟨by decide, by decide, by decide, by decide, by decide⟩
 
 end V
